@@ -408,6 +408,7 @@ class Spec:
             for i in range(len(lst)):
                 ops.append(("disc_key", k[0], k[1], i))
                 ops.append(("disc_args", k[0], k[1], i))
+                ops.append(("disc_wrong", k[0], k[1], i))
             ops.append(("disc_missing", k[0], k[1]))
         for w in sorted(st.weak):
             ops.append(("kill", w))
@@ -440,6 +441,25 @@ class Spec:
             elif k == "disc_args":
                 c = st.conns[(op[1], op[2])][op[3]]
                 st.do_disconnect_args(op[1], op[2], c.fn, c.style)
+            elif k == "disc_wrong":
+                # the same callback, but with other arguments than it was connected with: nothing is connected like that
+                c = st.conns[(op[1], op[2])][op[3]]
+                for alt in (["plain"] if c.style != "plain" else ["weak1", "user"]) + (["weak1"] if c.style == "weak12" else []):
+                    if alt == c.style or any(x.fn is c.fn and x.style == alt for x in st.conns[(op[1], op[2])]):
+                        continue
+                    wn, ua, darg = style_args(st, alt)
+                    if any(w not in st.weak for w in wn):
+                        continue
+                    kwargs = {}
+                    if wn:
+                        kwargs["weak_args"] = [st.weak[w] for w in wn]
+                    if ua:
+                        kwargs["user_args"] = list(ua)
+                    urwid.disconnect_signal(st.senders[op[1]], op[2], c.fn, **kwargs)
+                    if st.canon()[0] != before:
+                        st.V("disconnect-missing-noop", f"same-callback-other-args/{c.style}-as-{alt}",
+                             f"disconnect_signal(callback, {kwargs}) removed a connection made with style {c.style!r}")
+                        break
             elif k == "disc_missing":
                 fn = st.make_fn(-1, "plain")
                 urwid.disconnect_signal(st.senders[op[1]], op[2], fn)
